@@ -773,7 +773,7 @@ const (
 
 // await polls cond. Positive verdicts need no quiescence; "never" does: when cond stays false the
 // system is probed, and only three consecutive quiescent samples (50 ms apart) with cond still false
-// make it definite. The 90 s wall-clock watchdog only ever yields "inconclusive".
+// make it definite. The 30 s wall-clock watchdog only ever yields "inconclusive".
 func (w *vWorld) await(cond func() bool, ignore map[int]bool) (int, []kit.G) {
 	start := time.Now()
 	nextProbe := start.Add(1500 * time.Millisecond)
@@ -802,7 +802,7 @@ func (w *vWorld) await(cond func() bool, ignore map[int]bool) (int, []kit.G) {
 			}
 			nextProbe = time.Now().Add(500 * time.Millisecond)
 		}
-		if now.Sub(start) > 90*time.Second {
+		if now.Sub(start) > 30*time.Second {
 			return vInconclusive, nil
 		}
 		time.Sleep(200 * time.Microsecond)
